@@ -4,7 +4,7 @@ answered by an application whose behaviour is encoded in the request target.
 A scenario is plain data (replayable):
 
   {"adj": {...adjustments...}, "sndbuf": int, "listeners": 1,
-   "conns": [{"requests": [req, ...], "pieces": [offsets] | None, "pingpong": bool,
+   "conns": [{"requests": [req, ...], "pieces": [offsets] | None, "pingpong": bool, "half_close": bool,
               "send_caps": [...], "delay": float, "reader": {"mode": "always"} |
               {"mode": "stall", "after": nbytes, "resume": "never"|float} |
               {"mode": "disconnect", "after": nbytes, "how": "close"|"reset"|"shutdown_wr"}}]}
@@ -314,6 +314,10 @@ def client_actor(world, cid_hint, spec, result):
             c.send(data, spec.get("pieces"))
         sent = len(reqs)
         result["sent"] = sent
+        if spec.get("half_close") and not c.conn.server_closed:
+            # the client has nothing more to say: FIN on its sending side, keeps reading
+            c.shutdown_wr()
+            result["half_closed"] = True
         # how many responses can be expected: up to and including the first closing one
         expect = 0
         for r in reqs:
